@@ -95,6 +95,8 @@ class StubAtoms:
 
     def wrap(self, **kw):
         self.mutations.append("wrap")
+        if not self.pbc.any():
+            return
         f = self.get_scaled_positions(wrap=True)
         self.positions = np.dot(f, self.cell)
 
